@@ -408,6 +408,23 @@ func c14Case(w *core.Worker, i int) {
 		if !volatile && !same(c1, c2) {
 			viol("repeat-differs:cells", "the same SELECT over the cached table gave different rows the second time")
 		}
+		// (3b) evaluating the expression on a row must not change what the same statement reads from that row
+		if rq := exec("SELECT id, c1, c2, c3, " + cellExpr + " AS e14, id AS id_, c1 AS c1_, c2 AS c2_, c3 AS c3_ FROM t;"); rq.Err == nil && len(rq.Views) == 1 && tab0.Err == nil && len(tab0.Views) == 1 && len(rq.Views[0].Rows) == len(tab0.Views[0].Rows) {
+			w.Count("rows_compared_around_the_expression", int64(len(rq.Views[0].Rows)))
+		rowLoop:
+			for k, row := range rq.Views[0].Rows {
+				for j := 0; j < 4; j++ {
+					want := tab0.Views[0].Rows[k][j]
+					if row[j] != want || row[5+j] != want {
+						viol("row-changed-by-evaluation", fmt.Sprintf("row %d: the table holds %v; selected before the expression %v, after it %v", k+1, valsToStrs(tab0.Views[0].Rows[k]), valsToStrs(row[:4]), valsToStrs(row[5:])))
+						break rowLoop
+					}
+				}
+			}
+		}
+		if wq := exec("SELECT * FROM t WHERE (" + cellExpr + ") IS NULL OR 1 = 1;"); wq.Err == nil && tab0.Err == nil && !same(tab0, wq) {
+			viol("row-changed-by-evaluation", "SELECT * with the expression in a WHERE clause that keeps every row returns other rows than SELECT *")
+		}
 		// (4) loop: the same syntax tree evaluated three times
 		lp := exec("VAR @i := 0; WHILE @i < 3 DO @i := @i + 1; PRINT " + expr + "; END WHILE; DISPOSE @i;")
 		if lp.Err == nil && !volatile {
